@@ -1,6 +1,7 @@
 package main
 
 import (
+	"os"
 	"fmt"
 	"sort"
 	"strings"
@@ -33,6 +34,10 @@ type c13Params struct {
 func c13Tier(tier string) c13Params {
 	if tier == "thorough" {
 		return c13Params{repoFlagSets: 12, deep: 90, uclass: 400, lrrec: 200, placement: 4 * placementCount, big: []int{70 << 10, 300 << 10, 1<<20 + 4096}, manyerrs: 80, gen: 5000, genFree: 2500, mut: 9000, bytes: 2500, faultsPer: 6, sessionLen: 32, realBinary: 60}
+	}
+	if os.Getenv("VERIF_C13_BIG") != "" {
+		// the quick tier with the largest input of the thorough tier (used when trying seeded changes)
+		return c13Params{repoFlagSets: 1, deep: 2, uclass: 2, lrrec: 2, placement: 4, big: []int{1<<20 + 4096}, manyerrs: 2, gen: 10, genFree: 4, mut: 10, bytes: 4, faultsPer: 4, sessionLen: 24, realBinary: 2}
 	}
 	return c13Params{repoFlagSets: 1, deep: 12, uclass: 16, lrrec: 10, placement: placementCount, big: []int{70 << 10}, manyerrs: 8, gen: 70, genFree: 40, mut: 170, bytes: 30, faultsPer: 4, sessionLen: 24, realBinary: 12}
 }
